@@ -269,6 +269,7 @@ def _loop2_inv(ctx):
     h = st.heap
     out = []
     if st.ghost.get("flattened"):
+        out.append(("still-flagged-bankrupt", h.get(self, "bankrupt")))
         return out
     rt = h.get(self, "root")
     out.append(("root-not-stale", Not(h.get(rt, "stale"))))
